@@ -46,6 +46,19 @@ static void emit(RandSystem& rs, Force::DiscreteForces& df, Rng& r, bool zeroU, 
     rs.sys.realize(s, Stage::Acceleration);
     pvec("OUT RUD", s.getUDot());
     for (MobilizedBodyIndex b(0); b < NB; ++b) { std::printf("OUT RACC %d", (int)b); psv(m.getMobilizedBody(b).getBodyAcceleration(s)); std::printf("\n"); }
+    // mobilizer reaction forces at the body origins: main (articulated-body) route and free-body route (C14).
+    // The model computes the first as P+ (~phi A_parent) + z+ and the second by the inverse-dynamics accumulation.
+    {
+        Vector_<SpatialVec> FMfb; m.calcMobilizerReactionForcesUsingFreebodyMethod(s, FMfb);
+        for (MobilizedBodyIndex b(0); b < NB; ++b) {
+            const MobilizedBody& mb = m.getMobilizedBody(b);
+            std::printf("OUT REACT %d", (int)b); psv(mb.findMobilizerReactionOnBodyAtOriginInGround(s)); std::printf("\n");
+            // free-body result is reported at the M frame origin: move it to the body origin
+            const Vec3 p_BM_G = mb.getBodyRotation(s) * mb.getOutboardFrame(s).p();
+            SpatialVec F = FMfb[b]; F[0] += p_BM_G % F[1];
+            std::printf("OUT REACTFB %d", (int)b); psv(F); std::printf("\n");
+        }
+    }
     // M^-1
     Vector mi; m.multiplyByMInv(s, MF, mi); pvec("OUT MINV", mi);
     Matrix MI; m.calcMInv(s, MI); Vector mim = MI * MF; pvec("OUT MINVMAT", mim);
